@@ -121,6 +121,44 @@ type runner struct {
 	slow     atomic.Bool  // listeners dawdle (set while sends overlap a stop call)
 	calls    atomic.Int64 // listener calls so far
 	watchdog bool
+
+	// While the in port is closed nobody reads the stand-in's FIFO: the harness drains it then, as a MIDI cable
+	// with no receiver loses what is sent (otherwise the FIFO fills up and the stand-in `out` helper, and with
+	// it Send, would block — an artefact of the stand-in, not of the driver).
+	staleWorth bool // the in port was opened while stop functions of earlier listeners exist
+	hold       *os.File
+	drainStop  chan struct{}
+	drainDone  chan struct{}
+}
+
+func (r *runner) startDrain() {
+	if r.hold == nil || r.drainStop != nil {
+		return
+	}
+	r.drainStop, r.drainDone = make(chan struct{}), make(chan struct{})
+	go func(stop, done chan struct{}) {
+		defer close(done)
+		buf := make([]byte, 1<<16)
+		for {
+			select {
+			case <-stop:
+				return
+			default:
+			}
+			r.hold.SetReadDeadline(time.Now().Add(10 * time.Millisecond))
+			r.hold.Read(buf)
+		}
+	}(r.drainStop, r.drainDone)
+}
+
+func (r *runner) stopDrain() {
+	if r.drainStop == nil {
+		return
+	}
+	close(r.drainStop)
+	<-r.drainDone
+	r.drainStop, r.drainDone = nil, nil
+	r.hold.SetReadDeadline(time.Time{})
 }
 
 func (r *runner) history() string {
@@ -389,12 +427,21 @@ func (r *runner) step(op string, g *rng) bool {
 		case "co":
 			f, name = r.out.Close, "out.Close"
 		}
+		if op == "oi" {
+			r.stopDrain() // from now on the in helper reads the FIFO
+		}
 		if !r.call(name, func() { err = f() }) {
 			return false
+		}
+		if op == "ci" || (op == "oi" && err != nil) {
+			r.startDrain()
 		}
 		r.mu.Lock()
 		switch op {
 		case "oi":
+			if !r.inOpen && len(r.stops) > 0 {
+				r.staleWorth = true
+			}
 			r.inOpen = true
 		case "oo":
 			r.outOpen = true
@@ -439,6 +486,15 @@ func (r *runner) step(op string, g *rng) bool {
 		r.active = -1
 		r.mu.Unlock()
 		r.record("s"+strconv.Itoa(k), "ok")
+	case 'S':
+		k, _ := strconv.Atoi(op[1:])
+		if k >= len(r.stops) {
+			k = len(r.stops) - 1
+		}
+		if !r.call("stop function of an earlier listener (called again, nobody listening)", r.stops[k]) {
+			return false
+		}
+		// not recorded in the trace for the Lean contract: with nobody listening it is a no-op there
 	case 'x':
 		if !r.call("out.Send", func() { r.send(0, 0) }) {
 			return false
@@ -535,6 +591,13 @@ func (r *runner) step(op string, g *rng) bool {
 
 // genOp: the next call of a random protocol-respecting history
 func (r *runner) genOp(g *rng) string {
+	// the in port has just been (re)opened and there are stop functions from before: call one of them now
+	if r.staleWorth && r.active < 0 && r.inOpen && len(r.stops) > 0 {
+		r.staleWorth = false
+		if g.chance(2, 3) {
+			return "S" + strconv.Itoa(g.intn(len(r.stops)))
+		}
+	}
 	for {
 		switch k := g.intn(28); {
 		case k < 2:
@@ -554,9 +617,15 @@ func (r *runner) genOp(g *rng) string {
 			if !r.inOpen {
 				return "oi"
 			}
-		case k < 13:
+		case k < 12:
 			if len(r.stops) > 0 {
 				return "s"
+			}
+		case k < 13:
+			// a stop function that has returned long ago is called once more while nobody listens (also after the
+			// port was closed and reopened): nothing to stop, it must simply return
+			if len(r.stops) > 0 && r.active < 0 {
+				return "S" + strconv.Itoa(g.intn(len(r.stops)))
 			}
 		case k < 16:
 			return "x"
@@ -590,7 +659,9 @@ func runHistory(drv *midicatdrv.Driver, index int, g *rng, fifoBase string) (wat
 	}
 	defer hold.Close()
 	os.Setenv("FAKE_FIFO", fifo)
-	r := &runner{index: index, active: -1, msgs: map[int]*msgRec{}, lastSeq: map[[2]int]int{}}
+	r := &runner{index: index, active: -1, msgs: map[int]*msgRec{}, lastSeq: map[[2]int]int{}, hold: hold}
+	r.startDrain()
+	defer r.stopDrain()
 	var ins []drivers.In
 	var outs []drivers.Out
 	if !r.call("Driver.Ins/Outs", func() {
